@@ -5,25 +5,38 @@ from vlib import zlit, listlit
 
 PROP = 'C10'
 REQUIRES = ['Determ.Model', 'Determ.Spec']
-RULE = ('seeded random programs of 4-25 operations over REAL objects: FixedWaveform / ToneFactory / SilenceFactory / BroadbandNoiseFactory, '
-        'GateFactory wrapping them, next(), reset(), copy.deepcopy, in-place writes by the caller into every array it was handed (results of next() '
-        'and of the memoised functions envelope / cos2envelope / sam_envelope), re-reads of held arrays, np.random.seed/uniform in between; plus '
-        'hand-written programs for each aliasing path; plus queue programs (append then mutate/advance the original, clone, interleaved use, '
-        'blocked-random order vs global seed) judged by the oracle. Non-trivial: the program contains a caller write or a deepcopy or global-random use.')
+RULE = ('(1) seeded random programs of 4-25 operations over REAL objects, compared with the aliasing model: FixedWaveform, 16 carriers (tone incl. '
+        'integer-typed parameters, silence, SAM tone, square wave, and all four seeded noise factories: broadband / band-limited IIR / band-limited FIR / '
+        'shaped, incl. seed 0 and NumPy-integer seeds), GateFactory wrapping them, next() with Python-int / NumPy-int counts (and the NumPy float '
+        'n_samples_remaining() returns, on FixedWaveform), zero-length counts on every carrier, reset(), copy.deepcopy, in-place writes by the caller into '
+        'every array it was handed (results of next() and of every array-valued memoised function: envelope positional and keyword form, cos2envelope, '
+        'sam_envelope, _sam_envelope, load_wav, the filter-design helper\'s tuple elements), re-reads of held arrays, five kinds of use of the global '
+        'NumPy random state in between; plus hand-written programs for each aliasing path, each noise factory and each memoised function. '
+        '(2) oracle-only programs: queue (six queue classes; append / extend with scalars / extend with lists; blocked-random seed default / 0 / int / '
+        'NumPy int; 14 kinds of source: float / int16 / read-only arrays and finite generators of every seeded and memoised kind; originals used, reset, '
+        'written to and advanced through their inner generators before AND while the queue plays them; clone early, clone late, clone of clone, read '
+        'alternately); gen (every generator class of harness/stimcore.catalogue incl. nested transforms: disturbed run == fresh run; reset == rebuilt); '
+        'memo (every fast_cache\'d function incl. the scalar ones, equal arguments of different kinds, positional / keyword, str / Path, caller writes into '
+        'every answer: each answer == the un-memoised function). Non-trivial: the program contains a caller write or a deepcopy or global-random use.')
 TRUSTED = ['harness/C10.py (program generator; mapping of model value codes to doubles via one-shot carriers and the un-memoised function)',
+           'harness/stimcore.py mk / catalogue (builders of the real generator objects, shared with C01/C09)',
            'CPython/NumPy view semantics as modelled in coq/Determ/Model.v (slices are views, np.concatenate/.copy() allocate, read-only flag rejects writes)']
 ASSUMPTIONS = ['the caller keeps no reference to the array a FixedWaveform was built from (mutating a constructor argument is a different parameter)',
                'an inner generator wrapped by a gate is not used directly afterwards',
+               'FIR-filtered noise (band-limited FIR, shaped) is compared with the one-shot carrier to 1e-12 (scipy filters a chunk by convolution); '
+               'everything else, and every same-chunking comparison, bit-exactly',
+               'RandomSignalQueue (global NumPy state by design), seed=None noise, queue.insert (raises TypeError) and WavSequenceFactory (cannot be '
+               'constructed: passes fs as the seed of its queue) are outside the statement / cannot be exercised',
                'that real objects have no hidden shared state beyond what the model lists is what the correspondence probes; it is not proved']
 FS = 1000.0
 
 
 NCAR = 16
 FILTERED_CARRIERS = (9, 10, 11, 12)
-# next(0) on a filtered noise factory hands scipy.signal.lfilter an empty chunk: the IIR factories then keep UNINITIALISED memory as
-# filter state (stream after it differs from run to run), the FIR ones raise ValueError.  Reported to the coordinator; zero-length
-# counts on these carriers are switched on here once /repo is repaired.
-ZERO_CHUNK_ON_FILTERED = False
+# next(0) on a filtered noise factory used to hand scipy.signal.lfilter an empty chunk (IIR: UNINITIALISED memory became the filter
+# state and the stream after it differed from run to run; FIR: ValueError).  Found by this harness, repaired in /repo (0525cf7):
+# zero-length counts are ordinary inputs for every carrier.
+ZERO_CHUNK_ON_FILTERED = True
 FIR_CARRIERS = (9, 10)      # FIR noise: scipy filters a chunk by convolution, so chunked and one-shot output differ by rounding (1e-12 allowed)
 
 
@@ -149,7 +162,7 @@ def cases(tier, rng):
         yield {'k': 'prog', 'prog': prog, 'kinds': kinds}
     for _ in range(60 if quick else 800):
         yield {'k': 'queue', 'seed': rng.randint(0, 10 ** 6)}
-    for j in range(150 if quick else 2500):
+    for j in range(200 if quick else 2500):
         yield {'k': 'gen', 'seed': 1000 * rng.randint(0, 10 ** 4) + j}      # seed % catalogue size walks through every generator type
     for _ in range(30 if quick else 400):
         yield {'k': 'memo', 'seed': rng.randint(0, 10 ** 6)}
@@ -414,7 +427,7 @@ def oracle(case, res):
                             f'returns {want[:10]}')
                 h[1].append(('next', o[2]))
             else:
-                h[1].append(('reset',))
+                del h[1][:]                    # reset() must be as good as building the generator again: nothing to replay
     return None
 
 
@@ -464,7 +477,12 @@ def _gen_script(rng, cfg):
             ops.append(['other', rng.choice([0, 1, 4, 11])])
         else:
             ops.append(['memo', rng.randint(0, NKEY - 1)])
-    ops.append(['next', rng.randint(max(lo, 1), 30), None])
+    if _filtered(cfg) and lo == 0:
+        ops.insert(rng.randint(0, len(ops)), ['next', 0, rng.choice([None, 'np'])])     # an empty chunk must not disturb a filter
+        ops.insert(0, ['next', rng.randint(1, 9), None])
+    # every script ends with: some output, reset, output again (reset must restore everything the generator carries: offsets,
+    # random state, filter state, the state of every nested generator)
+    ops += [['next', rng.randint(max(lo, 1), 30), None], ['reset'], ['next', rng.randint(max(lo, 1), 30), None]]
     return ops
 
 
@@ -487,13 +505,15 @@ def _gen_case(seed):
             if op[0] == 'next':
                 out.append(np.array(g.next(_count(op[1], op[2])), dtype=float))
             elif op[0] == 'reset':
-                g.reset()
+                g = stimcore.mk(cfg, fs)       # reset() must be as good as building the generator again
         return out
     try:
-        want = reference()
-    except (ValueError, TypeError) as e:
-        # a configuration the code refuses (rise time longer than the envelope, waveform too long to repeat): nothing to compare
+        stimcore.mk(cfg, fs).next(5)
+    except ValueError as e:
+        # a configuration the code refuses whatever is asked of it (rise time longer than the envelope, waveform too long to
+        # repeat): nothing to compare
         return {'cfg': cfg['t'], 'skip': type(e).__name__, 'fail': None}
+    want = reference()
     np.random.seed(seed % 50)
     g = stimcore.mk(cfg, fs)
     other = stimcore.mk(cfg, fs)           # same parameters, same seed: runs in between
@@ -554,23 +574,23 @@ def _memo_case(seed):
         k = rng.randint(0, 9)
         if k == 0:
             n = rng.choice([9, 12])
-            a = ('cosine-squared', num(1000), 0.012, num(0.003), cnt(0), num(0), cnt(n))
+            a = ('cosine-squared', num(1000), rng.choice([0.012, 0.013, 0.0124]), num(rng.choice([0.003, 0.002])), cnt(rng.choice([0, 0, 2])), num(0), cnt(n))
             calls.append((stim.envelope, a[:rng.randint(3, 7)], {}) if rng.random() < 0.5 else
                          (stim.envelope, (), dict(window=a[0], fs=a[1], duration=a[2], rise_time=a[3], samples=n)))
         elif k == 1:
-            calls.append((stim.envelope, ('hann', num(1000), 0.01, None), {'transform': rng.choice([None, _tr_half])}))
+            calls.append((stim.envelope, (rng.choice(['hann', 'blackman']), num(1000), rng.choice([0.01, 0.011]), None), {'transform': rng.choice([None, _tr_half])}))
         elif k == 2:
-            calls.append((stim.cos2envelope, (num(1000), 0.01, 0.002), rng.choice([{}, {'offset': cnt(3), 'samples': cnt(8)}, {'start_time': 0.002}])))
+            calls.append((stim.cos2envelope, (num(1000), rng.choice([0.01, 0.011, 0.0104]), rng.choice([0.002, 0.003])), rng.choice([{}, {'offset': cnt(3), 'samples': cnt(8)}, {'start_time': 0.002}])))
         elif k == 3:
             calls.append((stim.sam_eq_power, (num(rng.choice([1, 0.5, 0])),), {}))
         elif k == 4:
             calls.append((stim.sam_eq_phase, (num(rng.choice([0, 0.002])), num(rng.choice([1, 0.5, 0])), rng.choice([1, -1])), {}))
         elif k == 5:
-            calls.append((stim._sam_envelope, (cnt(rng.choice([0, 3])), cnt(9), num(1000), num(1), num(40), num(0), 0.3, num(1)), {}))
+            calls.append((stim._sam_envelope, (cnt(rng.choice([0, 3])), cnt(rng.choice([9, 8])), num(1000), num(rng.choice([1, 0.5])), num(rng.choice([40, 40.5])), num(0), rng.choice([0.3, 0.31]), num(1)), {}))
         elif k == 6:
-            calls.append((stim.sam_envelope, (cnt(rng.choice([0, 5])), cnt(7), num(1000), num(rng.choice([1, 0.5])), num(40), 0.002, True), {}))
+            calls.append((stim.sam_envelope, (cnt(rng.choice([0, 5])), cnt(7), num(1000), num(rng.choice([1, 0.5, 0.25])), num(rng.choice([40, 41])), rng.choice([0.002, 0.003]), True), {}))
         elif k == 7:
-            calls.append((stim._calculate_bandlimited_noise_filter, (num(1000), num(100), num(200), num(50), num(400), num(1), num(80)), {}))
+            calls.append((stim._calculate_bandlimited_noise_filter, (num(1000), num(rng.choice([100, 100.5])), num(200), num(50), num(400), num(1), num(rng.choice([80, 60]))), {}))
         elif k == 8:
             calls.append((stim.load_wav, (num(1000), rng.choice([wav, Path(wav)])),
                           rng.choice([{}, {'normalization': 'pe'}, {'normalization': 'rms'}, {'level': None, 'normalization': None}])))
